@@ -37,7 +37,17 @@ def main():
             shutil.rmtree(evd, ignore_errors=True)
     finally:
         subprocess.run(['git', '-C', '/repo', 'worktree', 'remove', '--force', wt])
+    if 'apply_error' in res and os.path.exists(os.path.join(d, 'result.json')):
+        # the patch was written against an earlier HEAD (a later fix: commit rewrote the same lines): keep the earlier result
+        old = json.load(open(os.path.join(d, 'result.json')))
+        old['no_longer_applies_to'] = res['repo_head']
+        res = old
     json.dump(res, open(os.path.join(d, 'result.json'), 'w'), indent=1)
+    back = os.environ.get('SEED_COPY_BACK')
+    if back:
+        tgt = os.path.join(back, os.path.relpath(d, ROOT))
+        if os.path.isdir(tgt):
+            json.dump(res, open(os.path.join(tgt, 'result.json'), 'w'), indent=1)
     print(json.dumps(res, indent=1))
 
 
